@@ -253,8 +253,11 @@ where
     fn from_triple_source<TS: TripleSource>(
         mut triples: TS,
     ) -> StreamResult<Self, TS::Error, Self::Error> {
+        // NB: the hint is only a hint (for a fallible source, it even counts the items
+        // after the first error, which will never be delivered): never panic because of it.
         let min_cap = triples.size_hint_triples().0;
-        let mut v = Vec::with_capacity(min_cap);
+        let mut v = Vec::new();
+        let _ = v.try_reserve(min_cap);
         triples
             .for_each_triple(|t| v.push([t.s().into_term(), t.p().into_term(), t.o().into_term()]))
             .map_err(SourceError)?;
@@ -323,8 +326,10 @@ where
     fn from_triple_source<TS: TripleSource>(
         mut triples: TS,
     ) -> StreamResult<Self, TS::Error, Self::Error> {
+        // NB: see Vec<[T; 3]>::from_triple_source above
         let min_cap = triples.size_hint_triples().0;
-        let mut s = HashSet::<_, S>::with_capacity_and_hasher(min_cap, S::default());
+        let mut s = HashSet::<_, S>::with_hasher(S::default());
+        let _ = s.try_reserve(min_cap);
         triples
             .for_each_triple(|t| {
                 s.insert([t.s().into_term(), t.p().into_term(), t.o().into_term()]);
